@@ -21,6 +21,7 @@ CONSTANTS
   Floor,       \* file growth floor (cells): set_min_len grows to max(len, 2*cur, Floor)
   InitLen,     \* open_with_min_len argument (cells, not necessarily page aligned)
   MaxFile,     \* bound on the layout length (cells) explored
+  PreN,        \* number of regions (names "a","b",... in this order) created, one page each, before the explored history starts
   WKinds,      \* write kinds enabled: subset of {"append","at0","atend","tw0","tw1","oob"}
   Depth, Dev, Ops, HistK
 
@@ -58,7 +59,7 @@ G0 == [ ref |-> [x \in {} |-> <<>>],   \* reference contents
         persist |-> {},                 \* names whose metadata slot was ever written (survive reopen)
         must |-> "ok", dev |-> {}, nxt |-> 1, last |-> <<>> ]
 
-Init == r = R0 /\ g = G0 /\ n = 0 /\ hist = <<>>
+InitDeferred == TRUE
 
 SlotOf(s, nm) == CHOOSE i \in 1..Len(s.slots) : IsReg(s.slots[i]) /\ s.slots[i].id = nm
 Exists(s, nm) == \E i \in 1..Len(s.slots) : IsReg(s.slots[i]) /\ s.slots[i].id = nm
@@ -358,7 +359,7 @@ Step(op, args, s, gg) ==
                            exp |-> GObs(gg), impl |-> Obs(s), alloc |-> Alloc(s), pend |-> s.pend, resv |-> s.resv,
                            dev |-> gg.dev, io |-> s.io])
 
-Alive == n < Depth
+Alive == n < Depth /\ Len(hist) >= PreN
 Start(s) == [s EXCEPT !.io = <<>>, !.path = "-"]
 rr == Start(r)
 
@@ -448,7 +449,23 @@ AReopen ==
          keep == DOMAIN g.ref \cap g.persist
      IN Step("reopen", <<>>, s, [g EXCEPT !.ref = [x \in keep |-> g.ref[x]], !.must = "ok"])
 
-Next == \/ ACreate \/ AWrite \/ ATruncate \/ ARename \/ ARemove \/ AHold \/ ARelease
+Pre == SubSeq(<<"a", "b", "c", "d", "e", "f">>, 1, PreN)
+\* the regions named in Pre are created first, as ordinary (replayed) create steps that do not count towards Depth
+APre ==
+  /\ Len(hist) < PreN
+  /\ LET nm == Pre[Len(hist) + 1]
+         s1 == Create(rr, nm)
+         g1 == [g EXCEPT !.ref = FnSet(g.ref, nm, <<>>), !.must = "ok"]
+     IN /\ r' = [s1 EXCEPT !.io = <<>>, !.path = "-"]
+        /\ g' = g1
+        /\ n' = n
+        /\ hist' = Append(hist, [op |-> "create", args |-> <<nm>>, res |-> s1.res, must |-> "ok", path |-> s1.path,
+                                  exp |-> GObs(g1), impl |-> Obs(s1), alloc |-> Alloc(s1), pend |-> s1.pend, resv |-> s1.resv,
+                                  dev |-> {}, io |-> s1.io])
+
+Init == r = R0 /\ g = G0 /\ n = 0 /\ hist = <<>>
+
+Next == \/ APre \/ ACreate \/ AWrite \/ ATruncate \/ ARename \/ ARemove \/ AHold \/ ARelease
         \/ AFlush \/ ARegionFlush \/ ACompact \/ AReopen
 
 Spec == Init /\ [][Next]_vars
